@@ -54,6 +54,25 @@ Theorem C08_tool_identity : forall docs, forallb bytes_okb docs = true ->
 Proof. exact tool_identity_proof. Qed.
 Print Assumptions C08_tool_identity.
 
+(* Whatever the child does (any function from its stdin to its stdout): the tool ends
+   successfully only if the child wrote exactly one line per line it was given; a child that
+   drops, merges or adds lines makes the tool fail (BChildShort / BSurplus) instead of
+   shifting lines into a neighbouring document. *)
+Theorem C08_line_count_guard : forall child cr_out docs out,
+  b64filter_docs_stream child cr_out docs = BOk out ->
+  exists child_in, feed_all docs = Some (child_in, map meta_of docs) /\
+    length (records 10 cr_out (child child_in)) = length (concat (map doc_lines docs)).
+Proof. exact line_count_guard_proof. Qed.
+Print Assumptions C08_line_count_guard.
+
+(* non-vacuity: a child that swallows the second line, and one that adds a line *)
+Example C08_nonvacuous_guard :
+  let docs := [[97; 10; 98]; [99]] in
+  b64filter_docs_stream (fun s => firstn 2 s ++ skipn 4 s) false docs = BChildShort /\
+  b64filter_docs_stream (fun s => s ++ [88; 10]) false docs = BSurplus /\
+  (exists o, b64filter_docs_stream (fun s => s) false docs = BOk o).
+Proof. vm_compute. repeat split. eexists; reflexivity. Qed.
+
 (* non-vacuity: the interesting document shapes, and a run of the whole tool *)
 Example C08_nonvacuous_shapes :
   doc_lines [] = [[]] /\ ends_nl [] = false /\
